@@ -130,6 +130,7 @@ pub struct Ctx {
     pub helper_handovers: u64,
     pub port_space: u32,
     h3_calls: u32,
+    pub run_index: u64,
     pub notes: Vec<String>,
 }
 
@@ -288,6 +289,11 @@ pub fn abort_run(reason: impl Into<String>) {
             w.wake_by_ref();
         }
     });
+}
+
+/// Index of this run within its batch; enumerating checks derive their case from it.
+pub fn run_index() -> u64 {
+    with(|c| c.run_index)
 }
 
 pub fn live_tasks() -> i64 {
@@ -615,6 +621,8 @@ pub struct RunCfg {
     pub max_polls: u64,
     pub classes: Vec<&'static str>,
     pub max_virtual_secs: u64,
+    /// Index of the run within its batch (for enumerating checks).
+    pub index: u64,
 }
 
 #[derive(Clone, Debug)]
@@ -714,6 +722,7 @@ where
         helper_handovers: 0,
         port_space: 0,
         h3_calls: 0,
+        run_index: rc.index,
         notes: Vec::new(),
     };
     let shared: Shared = Arc::new(Mutex::new(ctx));
